@@ -63,9 +63,7 @@ Section Mono.
     apply mono_bind.
     - destruct stages as [|c [|c' cs]]; try apply mono_stages.
       apply mono_bind; [apply Hrec|]. intros; apply mono_same; reflexivity.
-    - intros rs w1. apply mono_out. msimp.
-      repeat match goal with |- context [if ?b then _ :: _ else _] => destruct b end;
-        repeat apply ext_cons; apply ext_refl.
+    - intros rs w1. apply mono_same; reflexivity.
   Qed.
 
   Lemma mono_andor_rest rest sup : forall res w, mono w (andor_rest rec rest sup res w).
